@@ -26,11 +26,12 @@ REASONS = {
     'peer_close': ['transport close'],
     'send_late': ['ping timeout', 'transport close', 'transport error'],
     'silence': ['ping timeout', 'transport close', 'transport error'],
+    'post_msg': [], 'frame_msg': [],
 }
 TIMED = ['ping timeout', 'transport close', 'transport error']
 POLLING_CAUSES = ['post_close', 'api_disc', 'api_disc_all', 'post_bad', 'post_oversize', 'send_late', 'silence']
 WS_CAUSES = ['frame_close', 'api_disc', 'api_disc_all', 'peer_close', 'send_late', 'silence']
-DH = ['record', 'raise', 'yield', 'reenter_disconnect', 'reenter_send']
+DH = ['record', 'raise', 'yield', 'reenter_disconnect', 'reenter_send']      # plus 'sleep' in the racing-message scenarios
 
 
 class Beh(base.Behaviour):
@@ -48,6 +49,8 @@ class Beh(base.Behaviour):
             return [('raise', 'disconnect handler failure')]
         if self.dh == 'yield':
             return [('yield',)]
+        if self.dh == 'sleep':
+            return [('sleep', 0.25)]
         if self.dh == 'reenter_disconnect':
             return [('disconnect', sid)]
         if self.dh == 'reenter_send':
@@ -59,7 +62,7 @@ class Events(core.Scenario):
     def build(self):
         p = self.params
         impl, tr, causes = p['impl'], p['transport'], p['causes']
-        self.horizon = max([0.0] + [{'send_late': INTERVAL + TIMEOUT + 0.5,
+        self.horizon = max([0.25 if p['dh'] == 'sleep' else 0.0] + [{'send_late': INTERVAL + TIMEOUT + 0.5,
                                      'silence': INTERVAL + 3 * TIMEOUT + INTERVAL + TIMEOUT + 0.5}.get(c, 0.0)
                                     for c in causes])
         extra = {}
@@ -112,6 +115,10 @@ class Events(core.Scenario):
                     ww.call('send', A, 'too-late')
                 elif name == 'silence':
                     pass
+                elif name == 'post_msg':
+                    peer.post(ww, A, '4racing', run=False)
+                elif name == 'frame_msg':
+                    ww.ws_send(sc.ws, '4racing')
             nb = None
             if name == 'send_late':
                 nb = INTERVAL + TIMEOUT + 0.5
@@ -167,6 +174,8 @@ class Events(core.Scenario):
             # still reach its handler afterwards (DESIGN S4); only later arrivals count
             bad_step = [s for n, s, t in self.inj if n == 'post_bad']
             after = [e for e in after if not (e[0] == 'message' and e[2] == 'ok' and bad_step and bad_step[0] <= evA[i][4])]
+            race_step = [s for n, s, t in self.inj if n in ('post_msg', 'frame_msg')]
+            after = [e for e in after if not (e[0] == 'message' and e[2] == 'racing' and race_step and race_step[0] <= evA[i][4])]
             if after:
                 self.flag('event_after_disconnect', 'events after the disconnect event: %r' % [e[:3] for e in after], trigger=trig)
             ev = evA[i]
@@ -228,6 +237,11 @@ def param_list(ctx):
                 for dh in (('record', 'yield') if ctx.quick else DH):
                     ps.append({'impl': impl, 'transport': tr, 'causes': list(cs), 'dh': dh})
             ps.append({'impl': impl, 'transport': tr, 'causes': [causes[0]], 'dh': 'record', 'mh': 'raise'})
+            # a MESSAGE that may be delivered while the disconnect handler of another cause is suspended
+            racer = 'post_msg' if tr == 'polling' else 'frame_msg'
+            for c0 in (causes[0], 'api_disc'):
+                for dh in ('yield', 'sleep', 'record'):
+                    ps.append({'impl': impl, 'transport': tr, 'causes': [c0, racer], 'dh': dh})
             if tr == 'polling':
                 ps.append({'impl': impl, 'transport': tr, 'causes': ['api_disc'], 'dh': 'record', 'poll': False})
                 ps.append({'impl': impl, 'transport': tr, 'causes': ['post_bad', 'api_disc'], 'dh': 'yield', 'poll': False})
